@@ -81,3 +81,15 @@ class AlignIndexAllLengths(Contract):
                 r["case"] = f"method {m}, every target axis length"
                 out.append(r)
         return out
+
+
+def _with_selftest(fn):
+    def wrapped(self, tier):
+        from contracts.unbounded import engine_selftest
+
+        return fn(self, tier) + engine_selftest()
+
+    return wrapped
+
+
+AlignIndexAllLengths.static_obligations = _with_selftest(AlignIndexAllLengths.static_obligations)
